@@ -9,7 +9,7 @@ import os, re, sys, glob, time, zlib, struct
 import vlib
 
 MAXLEN = 64 * 1024 * 1024       # property text: "above 64 MiB"
-ERRS = ("InvalidLength", "CheckSumError", "UnknownMessageType", "ParseError")
+ERRS = ("InvalidLength", "CheckSumError", "InvalidNameLen", "UnknownMessageType", "ParseError")
 
 
 # ------------------------------------------------------------------ specs
@@ -81,6 +81,49 @@ def ref_decode(stream, tag, parse):
         if body[:M] != tag:
             return ev + [("err", "UnknownMessageType")], pos, True
         m = parse(body[M:])
+        if m is None:
+            return ev + [("err", "ParseError")], pos, True
+        ev.append(("msg", m))
+        pos += 4 + size
+
+
+OLD_TYPE = b"muduo.net.RpcMessage"     # the only message type the harness links (createMessage finds it by name)
+
+
+def old_frame(cov):
+    """len | covered bytes | adler32(covered)   (covered = nameLen, typeName, protobufData)"""
+    return struct.pack(">I", len(cov) + 4) + cov + struct.pack(">I", adler32_fast(cov))
+
+
+def old_encode(type_name, data):
+    """struct comment of examples/protobuf/codec/codec.h: int32 len; int32 nameLen; char typeName[nameLen]
+    (NUL-terminated); char protobufData[len-nameLen-8]; int32 checkSum = adler32 of nameLen, typeName, protobufData"""
+    return old_frame(struct.pack(">i", len(type_name) + 1) + type_name + b"\0" + data)
+
+
+def ref_decode_old(stream, create, parse):
+    """Greedy split of the whole stream in the OLD codec's layout.  (events, consumed, abandoned)"""
+    ev, pos = [], 0
+    while True:
+        rest = len(stream) - pos
+        if rest < 4 + 10:                           # len + nameLen + 2 name bytes + checkSum
+            return ev, pos, False
+        (size,) = struct.unpack(">i", stream[pos:pos + 4])
+        if size < 10 or size > MAXLEN:
+            return ev + [("err", "InvalidLength")], pos, True
+        if rest < 4 + size:
+            return ev, pos, False
+        frame = stream[pos + 4:pos + 4 + size]
+        cov, (ck,) = frame[:-4], struct.unpack(">I", frame[-4:])
+        if adler32_fast(cov) != ck:
+            return ev + [("err", "CheckSumError")], pos, True
+        (nl,) = struct.unpack(">i", cov[:4])
+        if nl < 2 or nl > size - 8:
+            return ev + [("err", "InvalidNameLen")], pos, True
+        name, data = cov[4:4 + nl - 1], cov[4 + nl:]     # the name field's last byte (the NUL) is not looked at
+        if not create(name):
+            return ev + [("err", "UnknownMessageType")], pos, True
+        m = parse(data)
         if m is None:
             return ev + [("err", "ParseError")], pos, True
         ev.append(("msg", m))
@@ -305,6 +348,11 @@ def oracle(case, lines):
                 return (i, "unparsable %r" % out)
             if len(t) > 3 and t[3] == "valid" and table[p] != p:
                 return (i, "protobuf does not round-trip a canonical RpcMessage payload %s: %s" % (t[1], out))
+        elif t[0] == "E" and kind == "old":
+            f = [None if x == "~" else bytes_of_spec(x) for x in t[3:7]]
+            exp = old_encode(OLD_TYPE, rpc_ser(int(t[1]), int(t[2]), f[0], f[1], f[2], f[3], None if t[7] == "~" else int(t[7])))
+            if out != "E " + exp.hex():
+                return (i, "ProtobufCodec::fillEmptyBuffer produced %s, the wire format of codec.h requires %s" % (out[2:], exp.hex()))
         elif t[0] == "E":
             if kind == "raw":
                 exp = encode(tag, raw_ser(bytes_of_spec(t[1])))
@@ -418,7 +466,10 @@ def oracle(case, lines):
                             _m.append(p)
                             return None
                         return table[p]
-                ev, consumed, ab = ref_decode(stream, tag, parse)
+                if kind == "old":
+                    ev, consumed, ab = ref_decode_old(stream, lambda tn: tn == OLD_TYPE, parse)
+                else:
+                    ev, consumed, ab = ref_decode(stream, tag, parse)
                 if kind != "raw" and missing:
                     return (i, "case lacks the protobuf verdict for payload %s" % missing[0].hex())
                 exp = [show_codec_event(e) for e in ev]
@@ -587,6 +638,90 @@ class Gen:
         # 8. valid frames followed by a partial next frame / garbage
         tail = bytes(r.randrange(256) for _ in range(r.choice([1, 3, 4, 7, 4 + M + 3, 4 + M + 4, 30])))
         emit(good + tail, "garbage-tail", two_way=3, kway=1)
+
+    # ---- the OLD codec (examples/protobuf/codec/codec.cc)
+    def old_pt_ops(self, stream, valid_payloads):
+        seenp = []
+
+        def parse(p):
+            if p not in seenp:
+                seenp.append(p)
+            return b""
+        ref_decode_old(stream, lambda tn: tn == OLD_TYPE, parse)
+        return ["PT %s ?%s" % (hx(p), " valid" if p in valid_payloads else "") for p in seenp]
+
+    def old_cases(self, quick):
+        r = self.rng
+        nfr = r.randint(1, 4)
+        pls, eops = [], []
+        for _ in range(nfr):
+            p, e = self.payload("pb")
+            pls.append(p)
+            eops.append(e)
+        frames = [old_encode(OLD_TYPE, p) for p in pls]
+        good = b"".join(frames)
+        N = len(OLD_TYPE) + 1
+
+        def emit(stream, label, two_way=3, kway=1, bytewise=True, pre=()):
+            pt = self.old_pt_ops(stream, pls)
+            for j, cuts in enumerate(segmentations(r, len(stream), two_way=two_way, kway=kway, bytewise=bytewise)):
+                self.add("old", "-", (list(pre) if j == 0 else []) + pt, stream, cuts, label)
+
+        emit(good, "old-valid", two_way="all", kway=2, pre=eops)
+        k = r.randrange(nfr)
+        off = sum(len(f) for f in frames[:k])
+        f = frames[k]
+        size = len(f) - 4
+        cov = f[4:-4]
+
+        def with_victim(newframe):
+            return good[:off] + newframe + good[off + len(f):]
+        regions = {"length": (0, 4), "namelen": (4, 8), "typename": (8, 8 + N), "payload": (8 + N, len(f) - 4),
+                   "checksum": (len(f) - 4, len(f))}
+        for name, (a, b) in regions.items():
+            if b <= a:
+                continue
+            for pos in (range(a, b) if not quick else [r.randrange(a, b) for _ in range(2)]):
+                for bit in (range(8) if not quick else [r.randrange(8)]):
+                    x = bytearray(good)
+                    x[off + pos] ^= 1 << bit
+                    emit(bytes(x), "old-bitflip-" + name, bytewise=(bit == 0))
+        # nameLen values with the checksum recomputed (kInvalidNameLen is the class only this codec has)
+        for nl in (-1, -(1 << 31), 0, 1, 2, N - 1, N + 1, size - 8, size - 8 + 1, size - 9, (1 << 31) - 1):
+            emit(with_victim(old_frame(struct.pack(">i", nl) + cov[4:])), "old-namelen", two_way=2, bytewise=False)
+        # type names, checksum recomputed: mutated byte, embedded NUL, terminator not NUL (the decoder does not look at it),
+        # one character short, empty (nameLen = 1), upper case
+        t2 = bytearray(OLD_TYPE)
+        t2[r.randrange(len(t2))] ^= 1 << r.randrange(8)
+        names = [bytes(t2) + b"\0", OLD_TYPE[:5] + b"\0" + OLD_TYPE[6:] + b"\0", OLD_TYPE + b"X", OLD_TYPE[:-1] + b"\0", b"\0",
+                 OLD_TYPE.upper() + b"\0", OLD_TYPE + b"\0\0", b"muduo.net.Nope\0"]
+        for nm in (names if not quick else r.sample(names, 4) + [OLD_TYPE + b"X"]):
+            emit(with_victim(old_frame(struct.pack(">i", len(nm)) + nm + pls[k])), "old-typename", two_way=2, bytewise=False)
+        # payload corrupted / emptied, checksum recomputed
+        p = bytearray(pls[k])
+        p[0 if r.random() < 0.5 else r.randrange(len(p))] ^= 1 << r.randrange(8)
+        emit(with_victim(old_encode(OLD_TYPE, bytes(p))), "old-payload-rechecksummed")
+        emit(with_victim(old_encode(OLD_TYPE, b"")), "old-empty-payload")
+        # truncation
+        for cut in (range(len(good)) if not quick else sorted(set([0, 1, 3, 4, 7, 8, 13, 14, len(good) - 1] +
+                                                                [r.randrange(len(good)) for _ in range(4)]))):
+            if 0 <= cut < len(good):
+                x = good[:cut]
+                pt = self.old_pt_ops(x, pls)
+                self.add("old", "-", pt, x, (), "old-truncation")
+                if cut > 1:
+                    self.add("old", "-", pt, x, (r.randrange(1, cut),), "old-truncation")
+        # adversarial length fields in front of the victim's body
+        for L in (-1, -(1 << 31), 0, 9, 10, MAXLEN, MAXLEN + 1, (1 << 31) - 1, size - 1, size + 1):
+            emit(with_victim(struct.pack(">i", L) + f[4:]), "old-length-field", two_way=2, bytewise=False)
+        tail = bytes(r.randrange(256) for _ in range(r.choice([1, 3, 4, 13, 14, 30])))
+        emit(good + tail, "old-garbage-tail")
+        # random bytes, half of them with a plausible length so that the checksum stage is reached
+        n = r.choice([0, 1, 4, 13, 14, 15, 40, 200])
+        x = bytes(r.randrange(256) for _ in range(n))
+        if r.random() < 0.5 and n >= 14:
+            x = struct.pack(">i", r.randint(10, n)) + x[4:]
+        emit(x, "old-random-bytes", two_way=2)
 
     def codec_random_bytes(self, kind, tag, tagspec):
         r = self.rng
@@ -811,6 +946,8 @@ def generate(rng, tier):
     for kind, tag, ts in (("raw", b"XYZ", "58595a"), ("rpc", b"RPC0", "52504330")):
         g.big_frame(kind, tag, ts, 1500)
         g.big_frame(kind, tag, ts, 6000 if quick else 70000)
+    for _ in range(12 if quick else 300):
+        g.old_cases(quick)
     for _ in range(120 if quick else 1500):
         g.http_cases(quick)
     for _ in range(150 if quick else 1500):
@@ -889,9 +1026,18 @@ def run(chk, replay=None):
     tier, rng = chk.tier, chk.rng
     pr = chk.prove()
     model = vlib.build_model("C18")
-    impl = vlib.build_driver("C18_driver", ["C18_driver.cc"], variant="asan",
+    # harness/C18_oldcodec.cc #includes examples/protobuf/codec/codec.{h,cc} of the tree under test, which is not part of
+    # the muduo libraries: its content goes into the driver's cache key through a -D flag
+    import hashlib
+    oh = hashlib.sha1()
+    for rel in ("examples/protobuf/codec/codec.h", "examples/protobuf/codec/codec.cc"):
+        try:
+            oh.update(open(os.path.join(vlib.REPO, rel), "rb").read())
+        except OSError:
+            oh.update(b"missing " + rel.encode())
+    impl = vlib.build_driver("C18_driver", ["C18_driver.cc", "C18_oldcodec.cc"], variant="asan",
                              components=("base", "net", "protobuf", "protorpc", "http"), libs=["-lprotobuf", "-lz"],
-                             wrap=["__assert_fail"])
+                             wrap=["__assert_fail"], extra_flags=["-DC18_OLDCODEC_SRC_SHA=" + oh.hexdigest()[:16]])
     t0 = time.time()
     if replay:
         cases = load_case_file(replay)
